@@ -1613,6 +1613,18 @@ class Interp:
                             "//": lambda: a // b, "%": lambda: a % b, "**": lambda: a ** b}[op]()
                 except Exception:
                     pass
+        # A-numpy (minimal): the difference / sum of two matrices of one shape (mappings from index pairs to reals, see np.zeros) is taken entry by entry
+        if op in ("-", "+") and isinstance(a, SV) and isinstance(b, SV) and a.kind.tag == "dict" and b.kind.tag == "dict" \
+                and a.kind == b.kind and a.kind.args[0].tag == "tuple" and a.kind.args[1].tag == "real":
+            ks = keysort(a.kind.args[0])
+            val = z3.Const(core.fresh_name("npval"), z3.ArraySort(ks, core.R))
+            k = z3.Const(core.fresh_name("k"), ks)
+            av, bv = z3.Select(a.tree[1], k), z3.Select(b.tree[1], k)
+            self.define([z3.ForAll([k], z3.Select(val, k) == (av - bv if op == "-" else av + bv))])
+            if not st.pure:
+                # numpy raises (or broadcasts) when the shapes differ: outside the model -> must be proved impossible
+                self.emit(st, "defined", "same-shape@%s" % op, a.tree[0] == b.tree[0])
+            return SV(a.kind, (a.tree[0], val))
         one = None
         if op == "*" and isinstance(b, SV) and b.kind.tag == "int":
             if isinstance(a, list) and len(a) == 1:
